@@ -337,13 +337,29 @@ func c15Registry(c *core.Ctx) {
 	n.Subscribe("A", chA)
 	n.Subscribe("B", chB)
 	n.Subscribe("A", chAny)
-	misuse := core.Pick(c.Rng, "dup-subscribe", "dup-subscribe-ctx", "unsub-unknown-target", "unsub-wrong-key", "unsub-twice", "non-chan-target", "recv-only-target")
+	misuse := core.Pick(c.Rng, "dup-subscribe", "dup-subscribe-ctx", "dup-subscribe-after-cancel", "unsub-unknown-target", "unsub-wrong-key", "unsub-twice", "non-chan-target", "recv-only-target")
 	var pv interface{}
 	switch misuse {
 	case "dup-subscribe":
 		pv = core.Recover(func() { n.Subscribe("A", chA) })
 	case "dup-subscribe-ctx":
 		pv = core.Recover(func() { n.SubscribeContext(context.Background(), "A", chA) })
+	case "dup-subscribe-after-cancel":
+		// a subscription whose context is cancelled but which was not unsubscribed still exists
+		n.Unsubscribe("A", chA)
+		cctx, ccancel := context.WithCancel(context.Background())
+		n.SubscribeContext(cctx, "A", chA)
+		ccancel()
+		pv = core.Recover(func() {
+			if c.Rng.IntN(2) == 0 {
+				n.Subscribe("A", chA)
+			} else {
+				n.SubscribeContext(context.Background(), "A", chA)
+			}
+		})
+		// restore the live subscription the rest of the scenario expects
+		n.Unsubscribe("A", chA)
+		n.Subscribe("A", chA)
 	case "unsub-unknown-target":
 		pv = core.Recover(func() { n.Unsubscribe("A", make(chan int)) })
 	case "unsub-wrong-key":
